@@ -56,6 +56,9 @@ type mFile struct {
 var mFiles []*mFile
 var mStubCalls int
 
+// mSep: the blanks between a declaration keyword and the name (the grammar admits any run of blanks and tabs)
+var mSep = " "
+
 func mRewrite(form int) *openfgav1.Userset {
 	this := &openfgav1.Userset{Userset: &openfgav1.Userset_This{This: &openfgav1.DirectUserset{}}}
 	switch form {
@@ -80,9 +83,9 @@ func (f *mFile) render() {
 	lines = append(lines, "")
 	for i := range f.decls {
 		d := &f.decls[i]
-		kw := "type "
+		kw := "type" + mSep
 		if d.extend {
-			kw = "extend type "
+			kw = "extend" + mSep + "type" + mSep
 		}
 		d.line, d.col = len(lines), len(kw)
 		lines = append(lines, kw+d.name)
@@ -91,14 +94,14 @@ func (f *mFile) render() {
 		}
 		for j := range d.rels {
 			r := &d.rels[j]
-			r.line, r.col = len(lines), len("    define ")
-			lines = append(lines, "    define "+r.name+": "+mRewriteText[r.form])
+			r.line, r.col = len(lines), len("    define"+mSep)
+			lines = append(lines, "    define"+mSep+r.name+": "+mRewriteText[r.form])
 		}
 	}
 	for i := range f.conds {
 		c := &f.conds[i]
-		c.line, c.col = len(lines), len("condition ")
-		lines = append(lines, "condition "+c.name+"(x: int) {", "  x < 1", "}")
+		c.line, c.col = len(lines), len("condition"+mSep)
+		lines = append(lines, "condition"+mSep+c.name+"(x: int) {", "  x < 1", "}")
 	}
 	if f.broken {
 		lines = append(lines, "type")
@@ -192,6 +195,7 @@ const mNames = "ab"
 // (a base type and two or three extensions in other files).  SCEN 2:
 // extensions of relation-less types and conditions.
 func mGenFiles() []*mFile {
+	mSep = []string{" ", "  ", "\t"}[zzverif.Choose("separator", 1+2*zzverif.Param("SEPS", 0))]
 	n := zzverif.Param("N", 2)
 	nr := zzverif.Param("NR", 1)
 	var files []*mFile
